@@ -283,6 +283,24 @@ def make_scenarios(ctx, od):
                 ins, _ = candidate_values(od, params["p1"], rng)
                 sc["pf"], sc["base"] = {"p1": ins[0]}, "tpe_mv"
             scs.append(sc)
+    # systematic block: relative sampling of every sampler that has a relative mode (identical ranges in all earlier
+    # trials, enough of them to leave the start-up phase / the first generation)
+    plain = [{"kind": "float", "args": {"low": -0.2, "high": 0.3}, "K": 2},
+             {"kind": "float", "args": {"low": 0.0, "high": 1.0, "step": 0.3}, "K": 2},
+             {"kind": "int", "args": {"low": -2, "high": 3, "step": 2}, "K": 0},
+             {"kind": "float", "args": {"low": 1e-3, "high": 1e3, "log": True}, "K": 3},
+             {"kind": "int", "args": {"low": 1, "high": 200, "log": True}, "K": 0},
+             {"kind": "cat", "args": {"choices": [None, True, 2, 0.5, "a"]}, "K": 1}]
+    for sampler in sorted(RELATIVE_CAPABLE):
+        for j in range(3):
+            params = {f"p{i}": copy.deepcopy(plain[(2 * j + i) % len(plain)]) for i in range(3)}
+            sc = {"sampler": sampler, "seed": rng.randrange(2 ** 31), "storage": "mem", "params": params, "hist": "same",
+                  "n_hist": 5, "sid": len(scs),
+                  "trials": [{"enqueue": None, "redeclare": None, "incompat": None} for _ in range(3)]}
+            if sampler == "partial":
+                ins, _ = candidate_values(od, params["p2"], rng)
+                sc["pf"], sc["base"] = {"p2": ins[0]}, "tpe_mv"
+            scs.append(sc)
     return scs
 
 
